@@ -402,7 +402,7 @@ theorem sp_nameComp {track : Prop} {s0 : State} {names loc : List WName} {o : Op
     | panic => exact absurd rfl hs.nopanic
     | err e => exact ⟨by simp, fun a s' hh => by cases hh⟩
     | ok p =>
-      obtain ⟨hw2, hden, hq, ho, hr, _⟩ := hs.ok p rfl
+      obtain ⟨hw2, hden, hq, ho, hr, _, _⟩ := hs.ok p rfl
       simp only []
       refine ⟨?_, fun a s' hh => ?_⟩
       · unfold hvPush; simp only [M.modify_apply]; simp
@@ -661,7 +661,7 @@ theorem sp_ownerBlock {track : Prop} {s0 : State} {names loc : List WName} {o : 
     | panic => exact absurd rfl hs.nopanic
     | err e => exact ⟨by simp, fun a s' hh' => by cases hh'⟩
     | ok p =>
-      obtain ⟨hw2, hden, hq, ho, hr, _⟩ := hs.ok p rfl
+      obtain ⟨hw2, hden, hq, ho, hr, _, _⟩ := hs.ok p rfl
       simp only []
       refine ⟨by simp, fun a s' hh' => ?_⟩
       cases hh'
